@@ -9,6 +9,7 @@ import (
 	"sort"
 	"strings"
 	"syscall"
+	"time"
 
 	"github.com/apparentlymart/go-versions/versions"
 	regaddr "github.com/hashicorp/terraform-registry-address"
@@ -83,6 +84,11 @@ func buildArena(sc *bw.Scenario) error {
 	os.WriteFile("/scratch/otherpack/.terraformignore", []byte("zz*\n!zzkeep\n.terraformignore\n"), 0o644)
 	for _, n := range []string{"other0.txt", "zzdrop", "zzkeep", "zzz"} {
 		os.WriteFile("/scratch/otherpack/"+n, bytes.Repeat([]byte(n), 700), 0o644)
+	}
+	// pinned times: they reach the archive headers and so the sizes of simulated writes
+	stamp := time.Unix(1400000000, 0)
+	for _, n := range []string{"other0.txt", "zzdrop", "zzkeep", "zzz", ".terraformignore", ""} {
+		os.Chtimes("/scratch/otherpack/"+n, stamp, stamp)
 	}
 	return os.Chdir("/cwd")
 }
